@@ -3,7 +3,12 @@
 (* C18 -- trace layer.  One ndjson line per case served by the REAL router *)
 (* (kprapi.Server.setupRouter, hooked), with the observations of each      *)
 (* repetition of the request:                                              *)
-(*   {m, t, sps, w, h, target, obs: [{status, bk, effect, panic}, ...]}    *)
+(*   {k:"case", stack, m, t, sps, w, h, target, obs: [{status, bk, effect, *)
+(*    panic}, ...]}                                                        *)
+(*   {k:"hist", stack, w, reqs: [{m,t,sps,h,target}..], obs: [o1, o2, ..], *)
+(*    ref: [decision of each request on a fresh instance]}                 *)
+(*   {k:"conc", stack, w, reqs: [ra, rb], obs: [[answers of ra], [of rb]], *)
+(*    eff: [effects seen on the instance]}                                 *)
 (*   pass A  viol : <<line, monitor>> for every monitor of HttpGateProps   *)
 (*                  that is false on the observed case                     *)
 (*   pass B  drift: lines whose target is not the one the spec builds for  *)
@@ -22,12 +27,47 @@ Allowed(o, r) ==
     /\ ObsEffect(o) = r.effect
     /\ r.status = 0 \/ (o.status = r.status /\ o.bk = r.bk)
 
-SpecAllows(line) ==
-    LET p == SpellAll(BasePath(Tpl(line.t)), line.sps) IN
-    /\ ApplicableAll(BasePath(Tpl(line.t)), line.sps)
-    /\ line.target = Target(p)
-    /\ line.h.accept \in Accepts /\ line.h.ctype \in Ctypes /\ line.h.override \in Overrides /\ line.h.body \in BOOLEAN
-    /\ \A i \in DOMAIN line.obs : \E r \in Serve(line.m, p, line.w, line.h) : Allowed(line.obs[i], r)
+HdrOK(h) == h.accept \in Accepts /\ h.ctype \in Ctypes /\ h.override \in Overrides /\ h.body \in BOOLEAN
+ReqOK(r) ==
+    /\ ApplicableAll(BasePath(Tpl(r.t)), r.sps)
+    /\ r.target = Target(SpellAll(BasePath(Tpl(r.t)), r.sps))
+    /\ HdrOK(r.h)
+
+\* k = "case": one request, obs = its repetitions (each on another instance)
+SpecAllowsCase(line) ==
+    /\ ReqOK(line)
+    /\ \A i \in DOMAIN line.obs : \E r \in ServeReq(line, line.w, line.stack) : Allowed(line.obs[i], r)
+
+\* k = "hist": reqs served one after the other by one instance; the spec is stateless, so each
+\* observation must be a response the request gets alone
+SpecAllowsHist(line) ==
+    /\ Len(line.obs) = Len(line.reqs) /\ Len(line.ref) = Len(line.reqs)
+    /\ \A i \in DOMAIN line.reqs :
+         /\ ReqOK(line.reqs[i])
+         /\ \E r \in ServeReq(line.reqs[i], line.w, line.stack) : Allowed(line.obs[i], r)
+         /\ \E r \in ServeReq(line.reqs[i], line.w, line.stack) : Allowed(line.ref[i], r)
+
+\* k = "conc": status / body of every answer is one the request gets alone; the effects seen
+\* on the instance are effects of responses of the two requests
+SpecAllowsConc(line) ==
+    /\ \A i \in DOMAIN line.reqs :
+         /\ ReqOK(line.reqs[i])
+         /\ \A j \in DOMAIN line.obs[i] :
+              \E r \in ServeReq(line.reqs[i], line.w, line.stack) :
+                 r.status = 0 \/ (line.obs[i][j].status = r.status /\ line.obs[i][j].bk = r.bk)
+    /\ \A k \in DOMAIN line.eff :
+         \E i \in DOMAIN line.reqs : \E r \in ServeReq(line.reqs[i], line.w, line.stack) : r.effect = line.eff[k]
+
+LineViol(line) ==
+    CASE line.k = "case" -> Failed(line.m, line.t, line.sps, line.w, line.obs)
+      [] line.k = "hist" -> FailedHist(line.w, line.reqs, line.obs, line.ref)
+      [] line.k = "conc" -> FailedConc(line.w, line.reqs, line.obs, line.eff)
+
+LineAllowed(line) ==
+    CASE line.k = "case" -> SpecAllowsCase(line)
+      [] line.k = "hist" -> SpecAllowsHist(line)
+      [] line.k = "conc" -> SpecAllowsConc(line)
+      [] OTHER -> FALSE
 
 TInit == l = 1 /\ viol = {} /\ drift = {}
 
@@ -35,8 +75,8 @@ TNext ==
     /\ l <= Len(Trace)
     /\ l' = l + 1
     /\ LET line == Trace[l] IN
-       /\ viol' = viol \cup {<<l, mon>> : mon \in Failed(line.m, line.t, line.sps, line.w, line.obs)}
-       /\ drift' = drift \cup (IF SpecAllows(line) THEN {} ELSE {l})
+       /\ viol' = viol \cup {<<l, mon>> : mon \in LineViol(line)}
+       /\ drift' = drift \cup (IF LineAllowed(line) THEN {} ELSE {l})
 
 TSpec == TInit /\ [][TNext]_tvars
 
